@@ -112,6 +112,12 @@ def check_dispatch_and_consumption(rep, prog):
                 check_src_consumption(rep, I, st, where)
             if sid in ZERO_LEN_OK:
                 zero_length_reads(rep, I, where, "C01.R4.consumption")
+            # a section is decoded from its own bytes only: nothing it reads may live in an object shared by all sections
+            for e in I.events:
+                if e.kind == "shared_mutation" and (e.data[0].startswith("class ") or e.data[0].startswith("default argument")):
+                    rep.fail("C01.R2.once", e.func, e.node, "%s accumulates decoded data in %s, which every section object of that kind "
+                             "shares: the second such section of a log (or of a later log) shows the first one's values" % (
+                                 where, e.data[0]), node=e.node)
 
 
 ZERO_LEN_OK = (0x4548, 0x4D54, 0x4C50)
